@@ -240,7 +240,11 @@ func initCustoms() {
 					}
 				}
 			}
-			switch r.Intn(10) {
+			pick := r.Intn(10)
+			if sweep != nil && sweep.listN > 0 && (pick == 3 || pick == 4) {
+				pick = 5 // large containers hold values of the round-trip domain only
+			}
+			switch pick {
 			case 0, 1, 2:
 				rc.PostState, rc.Status = r.Bytes(32), 0
 			case 3, 4: // not a value the decoder gives back: post state of another length, status > 1
@@ -583,6 +587,8 @@ type sweepMode struct {
 	blen int
 	wide int // 0: zero, 1: one, 2: max, 3: random
 	list int // 0: empty, 1: one element, 2: three, 3: random
+	// listN > 0: the outermost lists (depth 0) get exactly listN elements, nested lists are empty
+	listN int
 }
 
 var sweep *sweepMode
@@ -633,6 +639,12 @@ func fill(r *vf.Rng, v reflect.Value, tg ftag, d int) {
 			n := []int{0, 1, 3, r.Intn(4)}[sw.list]
 			if d > 2 && n > 1 {
 				n = 1
+			}
+			if sw.listN > 0 {
+				n = 0
+				if d == 0 {
+					n = sw.listN
+				}
 			}
 			sl := reflect.MakeSlice(t, n, n)
 			for i := 0; i < n; i++ {
